@@ -19,7 +19,9 @@ REPO = os.environ.get('VERIF_REPO', '/repo')
 BUILD = os.path.join(VERIF, 'build')
 COQ = os.path.join(VERIF, 'coq')
 GEN = os.path.join(COQ, 'theories', 'Gen')
-GOENV = dict(GOFLAGS='-mod=mod', GOPROXY='off', GOSUMDB='off', GOTOOLCHAIN='local',
+# -mod=readonly: a harness that needs a change of /repo's go.mod fails to build instead of editing it
+# (checks never write into the tree they check)
+GOENV = dict(GOFLAGS='-mod=readonly', GOPROXY='off', GOSUMDB='off', GOTOOLCHAIN='local',
              CGO_ENABLED='0', GOCACHE=os.environ.get('GOCACHE', '/root/.cache/go-build'))
 
 KERNEL_TB = [
@@ -54,7 +56,7 @@ def sh(cmd, timeout=1200, cwd=None, env=None, check=False):
 
 def build_tools():
     os.makedirs(BUILD, exist_ok=True)
-    rc, out, _ = sh('go build -o %s/ ./...' % BUILD, cwd=os.path.join(VERIF, 'tools'), timeout=600)
+    rc, out, _ = sh('go build -o %s/ ./...' % BUILD, cwd=os.path.join(VERIF, 'tools'), timeout=600, env={'GOFLAGS': '-mod=mod'})
     if rc != 0:
         raise RuntimeError('building translators failed:\n' + out)
 
